@@ -30,8 +30,9 @@ uint64_t nondet_u64(void);
 uint8_t nondet_u8(void);
 int nondet_int(void);
 #define FSV_ASSUME(c) __CPROVER_assume(c)
-#ifdef WITNESS
-/* vacuity twin: only the assumptions and the control flow matter; the single obligation is FSV_END() */
+#if defined(WITNESS) || defined(FSV_SAFETY_ONLY)
+/* vacuity twin: only the assumptions and the control flow matter; the single obligation is FSV_END().
+   FSV_SAFETY_ONLY (C08): the obligations are cbmc's memory-safety instrumentation, not the harness assertions */
 #define FSV_ASSERT(c, msg) ((void)0)
 #else
 #define FSV_ASSERT(c, msg) __CPROVER_assert((c), "FSV: " msg)
